@@ -132,6 +132,14 @@ def check_overwrite(prog, rep):
                 if _is_exists_and_overwrite(test, h5, is_field, owv):
                     guards.append(taken)
         if "recurse" in w:
+            # a nested dictionary is read back key by key from its group (h5py_File_read_dict takes every key it finds): the old group has to go first
+            if not guards:
+                rep.violate("R2-overwrite", construct, "a nested dictionary is written into an existing group without removing it: keys of an earlier, richer dictionary survive "
+                            "and are read back (e.g. stale hyperparams)", where(f), "if fieldname in h5file and overwrite: del h5file[fieldname] before recursing", " ".join(w))
+                okall = False
+            elif guards[0] is True and (("del" not in w) or w.index("del") > w.index("recurse")):
+                rep.violate("R2-overwrite", construct, "the existing group of a nested dictionary is not deleted before it is rewritten", where(f), "del before the recursive call", " ".join(w))
+                okall = False
             continue
         if "create" in w:
             # create must be preceded by the exists-guard, and when the guard is taken by `del`
